@@ -8,6 +8,8 @@ from .. import paths
 from ..core import FUNC, call_attr, calls_in, const, dotted, is_const, kwarg, norm, text, walk_local
 
 EXPLANATION = [
+    'C12.subscribe-order: Client.subscribe registers the subscriber (setdefault / add on the subscriber tables) before the awaited CCCD write on every path.',
+    'C12.accessor-argument: Attribute.read_value / write_value pass each dynamic-value accessor the kind of object its signature declares (AttributeValue: the Connection; AttributeValueV2: the bearer).',
     "C12.eatt-mtu: each LeCreditBasedChannel handler that learns the peer's MTU from a connection response recomputes att_mtu afterwards, and no GATT / device code assigns a bearer's att_mtu from outside: both ends of an enhanced bearer hold min(own, peer).",
     "C12.truncation-bound: the value of a notification and of an indication is cut at exactly bearer.att_mtu - 3 (linear-form equality, through single-assignment locals): no other bound (such as the server's preferred MTU) shortens it.",
     'C12.mtu-fresh: in the async methods of gatt_client.Client no local copy of the ATT_MTU (self.mtu) taken before an await is used after it: the long-read threshold is the MTU current when the response arrives.',
@@ -695,7 +697,65 @@ def eatt_mtu(ctx):
             R.bad(rule, f'{p.qual_of(st)} | {norm(st)[:50]}', f'`{norm(st)[:60]}` overrides a bearer\'s ATT_MTU from outside the channel: the two ends of the bearer no longer agree on it', f'{m.rel}:{st.lineno}')
 
 
+def accessor_argument(ctx):
+    """Attribute.read_value / write_value hand a dynamic value's accessor the object its signature declares: the V1
+    AttributeValue takes the Connection (for an enhanced bearer: the connection under the channel), AttributeValueV2 the
+    bearer itself.  Decided from the accessor methods' parameter annotations."""
+    R, p = ctx.r, ctx.p
+    rule = 'C12.accessor-argument'
+    want = {'Connection': 'connection', 'Bearer': 'bearer'}
+    n = 0
+    for mname, acc in (('read_value', 'read'), ('write_value', 'write')):
+        fn = p.find(f'bumble.att.Attribute.{mname}')
+        if fn is None:
+            R.bad(rule, f'bumble.att.Attribute.{mname}', 'anchor missing')
+            continue
+        for mt in [x for x in walk_local(fn) if isinstance(x, ast.Match)]:
+            for case in mt.cases:
+                if not isinstance(case.pattern, ast.MatchClass):
+                    continue
+                cn = (dotted(case.pattern.cls) or '').split('.')[-1]
+                ci = p.cls(f'bumble.att.{cn}')
+                m = ci.methods.get(acc) if ci is not None else None
+                if m is None or len(m.args.args) < 2 or m.args.args[1].annotation is None:
+                    R.bad(rule, f'bumble.att.{cn}.{acc}', 'anchor missing (accessor or its annotation)')
+                    continue
+                ann = norm(m.args.args[1].annotation).strip('"\'').split('.')[-1]
+                for c in [x for s_ in case.body for x in calls_in(s_) if dotted(x.func) == f'self.value.{acc}']:
+                    n += 1
+                    a0 = norm(c.args[0]) if c.args else ''
+                    R.check(want.get(ann) == a0, rule, f'bumble.att.Attribute.{mname} | {cn}.{acc}', f'passes `{a0}` ({ann})', f'{mname} calls {cn}.{acc}({a0}, ...) but that accessor is declared to take a {ann}: on an enhanced (EATT) bearer the application\'s function receives an L2CAP channel where it expects the connection (or the reverse) and fails or answers for the wrong peer', p.loc(c))
+    R.check(n == 4, rule, 'bumble.att.Attribute | accessor calls', '4 accessor calls', f'{n} found')
+
+
+def subscribe_order(ctx):
+    """The client registers the subscriber before it writes the CCCD: a server may notify as soon as it has processed the
+    write (before the Write Response is seen by the caller), and a notification without a registered subscriber is dropped."""
+    R, p = ctx.r, ctx.p
+    rule = 'C12.subscribe-order'
+    fn = p.find(f'{CLI}.subscribe')
+    if fn is None:
+        R.bad(rule, f'{CLI}.subscribe', 'anchor missing')
+        return
+    late = []
+    seen = []
+
+    class D(paths.Domain):
+        def event(self, node, v):
+            if isinstance(node, ast.Call) and call_attr(node) == 'write_value':
+                return (True,)
+            if isinstance(node, ast.Call) and call_attr(node) in ('add', 'setdefault') and 'subscri' in (dotted(node.func.value) or ''):
+                seen.append(node)
+                if v:
+                    late.append(node)
+            return (v,)
+    paths.run(fn, D(), False)
+    R.check(bool(seen) and not late, rule, f'{CLI}.subscribe', f'{len(set(seen))} registration(s), all before the CCCD write', f'subscribe() registers the subscriber (`{norm(late[0])[:50] if late else ""}`) after awaiting the CCCD write: a notification / indication the server sends right after enabling arrives while nobody is registered and is lost', p.loc(late[0]) if late else p.loc(fn))
+
+
 RULES = [
+    ('C12.subscribe-order', subscribe_order),
+    ('C12.accessor-argument', accessor_argument),
     ('C12.eatt-mtu', eatt_mtu),
     ('C12.truncation-bound', truncation_bound),
     ('C12.mtu-fresh', mtu_fresh),
